@@ -88,7 +88,10 @@ def add_noise(text, choose, crlf=False, lead=''):
         if kind in ('ws',):
             c = choose(gap, len(NOISE_SEPS))
             gap += 1
-            out.append(NOISE_SEPS[c] if c is not None else tx)
+            if k > 0 and toks[k - 1][0] == 'lcomment':
+                out.append(tx)      # the line break that ends a // comment is not layout
+            else:
+                out.append(NOISE_SEPS[c] if c is not None else tx)
         else:
             out.append(tx)
     s = ''.join(out)
